@@ -600,7 +600,18 @@ def expand(prog):
                         local_closure_sites.append((c.point[0], prog.fns[a0.extra['path']]))
                         continue
                 H = prog.fns.get(cal.get('path')) if cal.get('path') else None
-                if H is None or (H.path not in cbp and H.path not in flg and H.path not in view) or H.path == F.path:
+                if H is None and (cal.get('resolved') or {}).get('path') in prog.fns:
+                    H = prog.fns[cal['resolved']['path']]
+                cross = False
+                if H is not None and H.path != F.path and F.trait_item and H.trait_item and F.self_adt == H.self_adt and F.self_adt in prog.list_adts:
+                    # an operation of a sorted-list variant that obtains its position from ANOTHER operation with a different search
+                    # role (`delete` through `first_index_less`): the callee's search is then the caller's search, and is held to
+                    # the caller's table there
+                    from rules.descent import ROLE_BY_METHOD
+                    rf_, rh_ = ROLE_BY_METHOD.get(F.trait_method()), ROLE_BY_METHOD.get(H.trait_method())
+                    ro = not any((l['ty'] or '').startswith('&mut') for l in H.body.locals[1:H.body.arg_count + 1])
+                    cross = bool(rf_ and rh_ and rf_ != rh_ and ro and not (F.trait_method() == 'delete' and rh_ == 'EXACT'))
+                if H is None or (H.path not in cbp and H.path not in flg and H.path not in view and not cross) or H.path == F.path:
                     continue
                 if H.path not in rec:
                     rec[H.path] = recursive(prog, H)
@@ -612,7 +623,7 @@ def expand(prog):
                     if a is not None and a.kind == 'agg' and a.extra.get('akind') == 'closure' and a.extra.get('path') in prog.fns:
                         binding[k] = a.extra['path']
                 flags = [k for k in flg.get(H.path, ()) if k - 1 < len(c.args) and constant_arg(prog, c.args[k - 1])]
-                if (H.path in cbp and len(binding) == len(cbp[H.path])) or flags or (H.path in view and H.path not in cbp):
+                if (H.path in cbp and len(binding) == len(cbp[H.path])) or flags or ((H.path in view or cross) and H.path not in cbp):
                     if len(binding) != len(cbp.get(H.path, {})):
                         binding = {k: v for k, v in binding.items()}
                     sites.append((c.point[0], H, binding, flags))
